@@ -46,9 +46,9 @@ def run(ctx):
     exact_label_rule(ctx)
 
 
-def _arm_blocks(cfg, targets):
-    """blocks belonging to each switch arm: reachable from its target but not from every arm's target"""
-    reach = {k: cfg.reachable_from(t) for k, t in targets.items()}
+def _arm_blocks(cfg, targets, stop=()):
+    """blocks belonging to each switch arm: reachable from its target (not passing `stop` blocks) but not from every arm's target"""
+    reach = {k: cfg.reachable_from(t, blocked=tuple(stop)) for k, t in targets.items()}
     distinct = {}
     for k, t in targets.items():
         others = [reach[j] for j, t2 in targets.items() if t2 != t]
